@@ -201,6 +201,10 @@ fn child_vec(c: &Value, emb: &Emb, mode: u64) -> Vec<u64> {
     v
 }
 
+pub fn child_vec_pub(c: &Value, emb: &Emb, mode: u64) -> Vec<u64> {
+    child_vec(c, emb, mode)
+}
+
 fn vjson(v: &Verdict) -> Value {
     match v {
         Verdict::Accepted(p) => json!({"acc": 1, "pis": p}),
